@@ -352,6 +352,12 @@ def run(ctx):
             C19_stream.check(ctx, cluster.load()[0])
         except (Inconclusive, Unmodelled) as e:
             ctx.inconclusive.append('C19 stream slice: %s: %s' % (type(e).__name__, str(e)[:300]))
+        # engine M: an undecodable serialized message costs the receiving actor nothing (one message-loop iteration, both runtimes in the thorough tier)
+        import C19_drop
+        try:
+            C19_drop.check(ctx, tier)
+        except (Inconclusive, Unmodelled) as e:
+            ctx.inconclusive.append('C19 drop slice: %s: %s' % (type(e).__name__, str(e)[:300]))
     except ImportError as e:
         ctx.inconclusive.append('C19 stream slice unavailable: %s' % e)
     th.join()
@@ -385,6 +391,11 @@ def run(ctx):
 def replay_file(path):
     d = json.load(open(path))
     rp = d.get('replay') or {}
+    if rp.get('which') == 'drop':
+        import C19_drop_replay
+        r = C19_drop_replay.replay(rp['decoder'], rp.get('runtime'))
+        print(r['detail'])
+        return 1 if r['replayed'] else 0
     if rp.get('which') == 'stream':
         import C19_stream_replay
         r = C19_stream_replay.replay(rp['want'], tuple(rp['reads']))
